@@ -56,6 +56,8 @@ package flow
 //@   loop 0 invariant forall p *Task :: p != nil ==> p.state == old(p.state) || (old(p.state) == Waiting && p.state == Ready && depsDone(p))
 //@   loop 0 invariant forall p *Task :: p != nil ==> doneT(p) == old(doneT(p))
 //@   ensures [onlyready] forall p *Task :: p != nil ==> p.state == old(p.state) || (old(p.state) == Waiting && p.state == Ready && depsDone(p))
+//@   loop 0 invariant forall k int :: 0 <= k && k <= rangeindex && k < len(c.tasks) && old(c.tasks[k].state) == Waiting && depsDone(c.tasks[k]) ==> c.tasks[k].state == Ready
+//@   ensures [allready] forall k int :: 0 <= k && k < len(c.tasks) && old(c.tasks[k].state) == Waiting && depsDone(c.tasks[k]) ==> c.tasks[k].state == Ready
 //@   ensures [inv] schedInv() && tasksOK(c)
 //@   assigns all Task.state, c.errs
 
